@@ -161,9 +161,9 @@ pub fn plan_for(prop: &str, tier: &str) -> Plan {
         }
         "C17" => {
             p.scenarios = if q {
-                sc(&[("xfer", 0), ("xfer-lag", 0), ("xfer-lag2", 0), ("xfer-race", 0), ("xfer-abort", 0), ("xfer-abort-pvcq", 0), ("xfer-cc-al", 0), ("xfer-pipe", 0), ("xfer-lag-cc", 0), ("xfer-race-two", 0), ("xfer", 1), ("xfer-race", 1)])
+                sc(&[("xfer", 0), ("xfer-lag", 0), ("xfer-lag2", 0), ("xfer-race", 0), ("xfer-abort", 0), ("xfer-abort-pvcq", 0), ("xfer-cc-al", 0), ("xfer-pipe", 0), ("xfer-lag-cc", 0), ("xfer-race-two", 0), ("xfer", 1), ("xfer-race", 1), ("xfer-lag-cc-dem2", 0)])
             } else {
-                sc(&[("xfer", 0), ("xfer-lag", 0), ("xfer-lag2", 0), ("xfer-race", 0), ("xfer-abort", 0), ("xfer-abort-pvcq", 0), ("xfer-cc-al", 0), ("xfer-pipe", 0), ("xfer-lag-cc", 0), ("xfer-race-two", 0), ("xfer", 1), ("xfer-race", 1), ("xfer-pipe", 1), ("xfer-abort", 1), ("xfer-pvcq", 1), ("xfer-lag", 1), ("xfer-abort", 2), ("xfer-lag2", 1), ("xfer-race", 2), ("xfer", 2), ("xfer", 3)])
+                sc(&[("xfer", 0), ("xfer-lag", 0), ("xfer-lag2", 0), ("xfer-race", 0), ("xfer-abort", 0), ("xfer-abort-pvcq", 0), ("xfer-cc-al", 0), ("xfer-pipe", 0), ("xfer-lag-cc", 0), ("xfer-race-two", 0), ("xfer", 1), ("xfer-race", 1), ("xfer-lag-cc-dem2", 0), ("xfer-pipe", 1), ("xfer-abort", 1), ("xfer-pvcq", 1), ("xfer-lag", 1), ("xfer-abort", 2), ("xfer-lag2", 1), ("xfer-race", 2), ("xfer", 2), ("xfer", 3)])
             };
             p.required_stats = vec![Stat::TransfersStarted, Stat::TimeoutNowSent, Stat::ProposalsRefused];
             p.explanation = "explicit-state exploration over all targets (voters, learner, unknown id, the leader itself), repeated and competing requests at leader and follower, lagging target, message loss; MsgTimeoutNow only to a caught-up target, proposals refused while pending, abort within election_tick leader ticks or when the target leaves the voters, bad targets are no-ops".into();
